@@ -66,7 +66,11 @@ Release  == \E u \in st.used \ Fixed(st.kind) :
 TurboOn  == /\ More /\ st.kind = "shape" /\ st.turbo < 0
             /\ st' = [st EXCEPT !.turbo = MaxOr(Digits(st.used), 0)]          \* turbo_add_enabled = True caches max_shape_id
             /\ hist' = Append(hist, Act("turbo", None, None))
-Next == Alloc \/ AllocGap \/ AllocIn \/ Release \/ TurboOn
+\* a freeform: a builder is drawn and converted (allocFree); the SAME builder converted again places another shape of that geometry
+\* (allocAgain: "multiple shapes of the same geometry") - every placement is a shape of its own with an identifier of its own
+AllocFree  == st.kind = "shape" /\ DoAlloc("allocFree")
+AllocAgain == st.kind = "shape" /\ (\E i \in DOMAIN hist : hist[i].op = "allocFree") /\ DoAlloc("allocAgain")
+Next == Alloc \/ AllocGap \/ AllocIn \/ AllocFree \/ AllocAgain \/ Release \/ TurboOn
 Spec == Init /\ [][Next]_<<st, hist>>
 
 \* every maximal history is printed once (state = <st, hist>: a history is a state)
